@@ -7,7 +7,8 @@ mkdir -p bin ../evidence ../replays
 rc=0
 for d in cmd/*/; do
   n=$(basename "$d")
-  if ! go build -tags verif -o "bin/$n" "./cmd/$n" 2> "bin/$n.buildlog"; then
+  cgo=0; [ "$n" = c18 ] && cgo=1
+  if ! CGO_ENABLED=$cgo go build -tags verif -o "bin/$n" "./cmd/$n" 2> "bin/$n.buildlog"; then
     echo "WARN: cmd/$n does not build (see harness/bin/$n.buildlog)"; rc=0
   fi
 done
